@@ -344,9 +344,13 @@ def run(ctx):
     # Study API
     study = p.cls(STUDY)
     spol = ClientPolicy(in_study_class=True)
-    for name in ("best_trial", "user_attrs", "system_attrs", "trials"):
+    # every public property of Study (best_trial, trials, user_attrs, system_attrs, metric_names, ...): enumerated, not listed
+    props = sorted(n_ for n_, f_ in study.methods.items() if not n_.startswith("_") and "property" in " ".join(f_.decorators()))
+    for must in ("best_trial", "user_attrs", "system_attrs", "trials"):
+        ctx.require(must in props, f"R20.2: Study.{must} vanished (or is no longer a property)")
+    ctx.floor("R20.2", "study_properties", len(props), 10)
+    for name in props:
         f = study.methods.get(name)
-        ctx.require(f is not None, f"R20.2: Study.{name} vanished")
         g = CFG(f.node, name=f.qualname)
         pre = A.analyse(g, spol)
         rets = [n for n in g.stmt_nodes() if n.kind == "stmt" and isinstance(n.ast, ast.Return) and n.ast.value is not None]
